@@ -455,7 +455,7 @@ func runC10(w *World, r *Report) {
 		}
 	}
 	signerAddr := isCallTo(").Address")
-	r.rule("sealing-guards", "the protected effect lies behind the rejecting edge of every sealing rule of its entry point (operands bound by access path)", 10)
+	r.rule("sealing-guards", "the protected effect lies behind the rejecting edge of every sealing rule of its entry point (operands bound by access path)", 8)
 	table := []struct {
 		fn     string
 		effect string // callee of the protected call
@@ -561,52 +561,7 @@ func runC10(w *World, r *Report) {
 
 	// sync guard
 	r.rule("sync-guards", "LoadDag: a second self-sealed vertex and an empty transaction each lead to cancel; loaded flag unreachable after cancel (see C14)", 2)
-	if f := w.fx(r, "accountant", "AccountingBook", "LoadDag"); f != nil {
-		fn := f.fn
-		cancelBlocks := cancelCallBlocks(fn)
-		loadedStores := storesToField(fn, "dagLoaded")
-		// self sealed twice
-		selfE := edgesWhere(fn, func(ft fact) bool {
-			return ft.kind == fEq && ((pathHasSuffix(pathOf(ft.x), "Transaction.IssuerAddress") && pathHasSuffix(pathOf(ft.y), "SignerPublicAddress")) ||
-				(pathHasSuffix(pathOf(ft.y), "Transaction.IssuerAddress") && pathHasSuffix(pathOf(ft.x), "SignerPublicAddress")))
-		})
-		okSelf := len(selfE) > 0
-		for _, e := range selfE {
-			// on the self-sealed edge with the flag already set → must reach cancel and never the loaded store
-			var flagTrue []Edge
-			walkBlocks := reachable([]*ssa.BasicBlock{e.To()}, nil)
-			for b := range walkBlocks {
-				for i := range b.Succs {
-					for _, ft := range edgeFacts(Edge{b, i}) {
-						if ft.kind == fTrue {
-							if phi, ok := strip(ft.x).(*ssa.Phi); ok && isBoolType(phi.Type()) {
-								flagTrue = append(flagTrue, Edge{b, i})
-							}
-						}
-					}
-				}
-			}
-			if len(flagTrue) == 0 {
-				okSelf = false
-			}
-			for _, te := range flagTrue {
-				if !leadsOnlyToCancel(te, cancelBlocks, loadedStores) {
-					okSelf = false
-				}
-			}
-		}
-		r.check(okSelf, "sync-guards", "LoadDag/second-self-sealed", w.Pos(fn.Pos()), "a second vertex whose issuer is its sealing node aborts the load", "self-sealed test missing or not leading to cancel")
-		okEmpty := false
-		for _, c := range f.calls(cn("transaction", "Transaction", "IsEmpty")) {
-			okEmpty = true
-			for _, te := range passBool(c, 0, true) {
-				if !leadsOnlyToCancel(te, cancelBlocks, loadedStores) {
-					okEmpty = false
-				}
-			}
-		}
-		r.check(okEmpty, "sync-guards", "LoadDag/empty-transaction", w.Pos(fn.Pos()), "an empty transaction aborts the load", "IsEmpty test missing or not leading to cancel")
-	}
+	syncGuardObligations(w, r, "sync-guards")
 
 	// closure facts
 	r.rule("who-may-call", "AddVertexByID only from the four admission functions; addLeafMemorized only from AddLeaf and runLeafSubscriber; buffer.insert only from addLeafMemorized", 3)
@@ -937,6 +892,67 @@ func runC13(w *World, r *Report) {
 		}
 	}
 
+	r.rule("retry-order", "the retry order never prefers a newer parked vertex over an older one (a child retried before its parked parent starves the parent until the child's retries are exhausted)", 1)
+	if gn := w.fx(r, "accountant", "buffer", "getNext"); gn != nil {
+		verdict, why := "fifo", "no comparator: arrival order"
+		for _, c := range gn.calls("slices.SortStableFunc", "slices.SortFunc", "sort.Slice", "sort.SliceStable") {
+			for _, arg := range c.Common().Args {
+				cmp := closureOf(arg)
+				if cmp == nil || len(cmp.Params) != 2 {
+					continue
+				}
+				pa, pb := cmp.Params[0].Name(), cmp.Params[1].Name()
+				root := func(v ssa.Value) string {
+					p := pathOf(v)
+					if i := strings.Index(p, "."); i >= 0 {
+						return p[:i]
+					}
+					return p
+				}
+				instrsOf(cmp, func(in ssa.Instruction) {
+					tc, ok := in.(*ssa.Call)
+					if !ok {
+						return
+					}
+					n := calleeName(tc)
+					if n != "(time.Time).Compare" && n != "(time.Time).Before" && n != "(time.Time).After" {
+						return
+					}
+					x, y := root(tc.Call.Args[0]), root(tc.Call.Args[1])
+					if x == y {
+						return // compares a value with itself: no reordering (stable sort keeps arrival order)
+					}
+					switch n {
+					case "(time.Time).Compare":
+						// used as the comparator's result: X.Compare(Y) ascending iff X is the first parameter
+						for _, ret := range returnsOf(cmp) {
+							if sameVal(ret.Results[0], tc) && x == pb && y == pa {
+								verdict, why = "newest-first", "comparator returns b.Compare(a): descending creation time"
+							}
+						}
+					case "(time.Time).Before", "(time.Time).After":
+						// `if X.Before(Y) { return -1 }` ascending iff X is a; `if X.After(Y) { return -1 }` descending
+						for _, te := range passBool(tc, 0, true) {
+							walkFrom(nil, te.To(), nil, func(x2 ssa.Instruction) bool {
+								if ret, ok := x2.(*ssa.Return); ok {
+									if k, isK := intConst(ret.Results[0]); isK && k < 0 {
+										asc := (n == "(time.Time).Before" && x == pa) || (n == "(time.Time).After" && x == pb)
+										if !asc {
+											verdict, why = "newest-first", "comparator puts the later creation time first"
+										}
+									}
+									return true
+								}
+								return false
+							})
+						}
+					}
+				})
+			}
+		}
+		r.check(verdict != "newest-first", "retry-order", "buffer.getNext/comparator", w.Pos(gn.fn.Pos()), "parked vertices are retried in arrival order or oldest first", why)
+	}
+
 	r.rule("retry-reenters-admission", "the retry loop hands every parked vertex to addLeafMemorized and nothing else inserts into the DAG (closure facts of C10)", 2)
 	if rl := w.fx(r, "accountant", "AccountingBook", "runLeafSubscriber"); rl != nil {
 		cs := rl.calls(cn("accountant", "*AccountingBook", "addLeafMemorized"))
@@ -977,7 +993,7 @@ func runC14(w *World, r *Report) {
 	fn := f.fn
 	cancel := cancelCallBlocks(fn)
 	loaded := storesToField(fn, "dagLoaded")
-	r.rule("loaded-flag-last", "the store dagLoaded = true is not reachable from any cancel call", 8)
+	r.rule("loaded-flag-last", "the store dagLoaded = true is not reachable from any cancel call", 5)
 	if len(loaded) != 1 {
 		r.bad("loaded-flag-last", "LoadDag/dagLoaded", w.Pos(fn.Pos()), "exactly one store to dagLoaded", fmt.Sprintf("%d", len(loaded)))
 		return
@@ -1076,6 +1092,9 @@ func runC14(w *World, r *Report) {
 		}
 	}
 
+	r.rule("malformed-stream-refused", "a second self-sealed vertex and an empty transaction in the stream each lead to cancel (never to the loaded flag)", 2)
+	syncGuardObligations(w, r, "malformed-stream-refused")
+
 	r.rule("genesis-from-root", "the genesis address stored by LoadDag is the issuer of a root vertex", 1)
 	okGen := false
 	for _, st := range storesToField(fn, "genesisPublicAddress") {
@@ -1114,4 +1133,55 @@ func blockCancelDesc(w *World, b *ssa.BasicBlock) string {
 func isBoolType(t types.Type) bool {
 	b, ok := t.Underlying().(*types.Basic)
 	return ok && b.Kind() == types.Bool
+}
+
+// syncGuardObligations: the malformed-stream tests of LoadDag (shared by C10 and C14).
+func syncGuardObligations(w *World, r *Report, rule string) {
+	if f := w.fx(r, "accountant", "AccountingBook", "LoadDag"); f != nil {
+		fn := f.fn
+		cancelBlocks := cancelCallBlocks(fn)
+		loadedStores := storesToField(fn, "dagLoaded")
+		// self sealed twice
+		selfE := edgesWhere(fn, func(ft fact) bool {
+			return ft.kind == fEq && ((pathHasSuffix(pathOf(ft.x), "Transaction.IssuerAddress") && pathHasSuffix(pathOf(ft.y), "SignerPublicAddress")) ||
+				(pathHasSuffix(pathOf(ft.y), "Transaction.IssuerAddress") && pathHasSuffix(pathOf(ft.x), "SignerPublicAddress")))
+		})
+		okSelf := len(selfE) > 0
+		for _, e := range selfE {
+			// on the self-sealed edge with the flag already set → must reach cancel and never the loaded store
+			var flagTrue []Edge
+			walkBlocks := reachable([]*ssa.BasicBlock{e.To()}, nil)
+			for b := range walkBlocks {
+				for i := range b.Succs {
+					for _, ft := range edgeFacts(Edge{b, i}) {
+						if ft.kind == fTrue {
+							if phi, ok := strip(ft.x).(*ssa.Phi); ok && isBoolType(phi.Type()) {
+								flagTrue = append(flagTrue, Edge{b, i})
+							}
+						}
+					}
+				}
+			}
+			if len(flagTrue) == 0 {
+				okSelf = false
+			}
+			for _, te := range flagTrue {
+				if !leadsOnlyToCancel(te, cancelBlocks, loadedStores) {
+					okSelf = false
+				}
+			}
+		}
+		r.check(okSelf, rule, "LoadDag/second-self-sealed", w.Pos(fn.Pos()), "a second vertex whose issuer is its sealing node aborts the load", "self-sealed test missing or not leading to cancel")
+		okEmpty := false
+		for _, c := range f.calls(cn("transaction", "Transaction", "IsEmpty")) {
+			okEmpty = true
+			for _, te := range passBool(c, 0, true) {
+				if !leadsOnlyToCancel(te, cancelBlocks, loadedStores) {
+					okEmpty = false
+				}
+			}
+		}
+		r.check(okEmpty, rule, "LoadDag/empty-transaction", w.Pos(fn.Pos()), "an empty transaction aborts the load", "IsEmpty test missing or not leading to cancel")
+	}
+
 }
